@@ -7,6 +7,7 @@ let dispatch prop input observed =
   match prop with
   | "C19" -> C19.run input observed
   | "C20" -> C20.run input observed
+  | "C04" | "C05" -> Coerce.run prop input observed
   | "C01" | "C02" | "C06" | "C08" | "C09" | "C10" | "C11" -> Exec.run prop input observed
   | p -> failwith ("modelrun: unknown property " ^ p)
 
